@@ -72,3 +72,25 @@ Definition requested (p : pid) (v : Z * string) : option fval :=
   end.
 
 Definition pid_eqb (p q : pid) : bool := pid_code p =? pid_code q.
+
+(* ---------------- histories: every write path, in any order.
+   [recs] (the identity registry's records, another module's state) may differ at every step. *)
+Inductive np_op : Type :=
+| OpSet (recs : list (string * string)) (code : Z) (v : Z * string)        (* keeper.SetNetworkProperty *)
+| OpProposal (recs : list (string * string)) (code : Z) (v : Z * string)   (* a passed proposal being applied *)
+| OpMsg (allowed : bool) (recs : list (string * string)) (new : props).     (* MsgSetNetworkProperties *)
+
+Definition np_apply (ps : props) (o : np_op) : option props :=
+  match o with
+  | OpSet recs code v => set_code recs ps code v
+  | OpProposal recs code v => apply_proposal recs ps code v
+  | OpMsg allowed recs new => msg_set_all allowed recs ps new
+  end.
+(* an error leaves the stored record as it was *)
+Definition np_step (ps : props) (o : np_op) : props :=
+  match np_apply ps o with Some ps' => ps' | None => ps end.
+(* genesis: InitGenesis stores the given record through the validating setter and panics on an
+   error ([genesis_error_handling], pinned) -- an invalid genesis record starts no chain *)
+Definition np_genesis (g : props) : option props := set_all g g.
+Definition np_run (g : props) (ops : list np_op) : option props :=
+  option_map (fun s => fold_left np_step ops s) (np_genesis g).
